@@ -4,8 +4,8 @@
    C11 case: (formula (status isnil foreign ((v val)...)))   foreign = number of keys that are not formula
    variables (auxiliary variables of the translation): reported, not judged -- the property is about the formula's value
    C12 case: (formula (status nbvars nbclauses ((v idx)...) ((lit...)...) foreign)) *)
-From Coq Require Import List ZArith Bool String NArith.
-From GS Require Import Spec.Base Spec.PB Spec.Solver Spec.URef Judge.Sx Judge.JCommon.
+From Coq Require Import List ZArith Bool String Ascii NArith.
+From GS Require Import Spec.Base Spec.PB Spec.Solver Spec.URef Judge.Sx Judge.JCommon Model.Rup Model.Bf Model.Cli.
 Import ListNotations.
 Open Scope string_scope.
 Open Scope Z_scope.
@@ -114,9 +114,61 @@ Definition judge_C11 (s : sx) : verdict :=
 Definition nodupZ (l : list Z) : bool :=
   (fix go (l : list Z) : bool := match l with [] => true | x :: r => negb (memZ x r) && go r end) l.
 
+(* Search with unit-propagation pruning: a prefix assignment is abandoned as soon as unit propagation (the verified
+   rup_line of Model/Rup.v, sound by C06_rup_sound) refutes it.  Needed because the exports define many auxiliary
+   variables by equivalences: plain clause-falsification pruning is exponential in their number. *)
+Fixpoint prefix_clause (pre : list bool) (k : Z) : clause :=
+  match pre with
+  | [] => []
+  | b :: r => (if b then - k else k) :: prefix_clause r (k - 1)
+  end.
+
+Definition prune_up (n : nat) (F : cnf) (pre : list bool) : bool :=
+  match pre with
+  | [] => false
+  | _ => match rup_line (S n) F (prefix_clause pre (Z.of_nat (List.length pre))) with Some true => true | _ => false end
+  end.
+
+Definition cnf_solve_up (n : nat) (F : cnf) : option model :=
+  find_pruned n (prune_up n F) (fun m => sat_cnf m F) [].
+
 Definition export_has_model (nb : nat) (F : cnf) (names : list (Z * Z)) (env : model) : bool :=
-  let units := map (fun p => if var_val env (fst p) then unit_uc (snd p) else unit_uc (- snd p)) names in
-  match uref_solve nb (cnf_uproblem F ++ units)%list with Some _ => true | None => false end.
+  let units := map (fun p => if var_val env (fst p) then [snd p] else [- snd p]) names in
+  match cnf_solve_up nb (units ++ F)%list with Some _ => true | None => false end.
+
+(* the same formula in the syntax of the mirrored package (coq/Model/Bf.v); variable v is named "v<v>" *)
+Definition vname_of (v : Z) : string := String "v"%char (print_Z v).
+
+Fixpoint to_sform (f : bform) : sform :=
+  match f with
+  | BVar v => SVar (vname_of v)
+  | BTrue => STrue
+  | BFalse => SFalse
+  | BNot g => SNot (to_sform g)
+  | BAnd l => SAnd ((fix go (l : list bform) : list sform := match l with [] => [] | x :: r => to_sform x :: go r end) l)
+  | BOr l => SOr ((fix go (l : list bform) : list sform := match l with [] => [] | x :: r => to_sform x :: go r end) l)
+  | BImp a b => SImplies (to_sform a) (to_sform b)
+  | BEq a b => SEq (to_sform a) (to_sform b)
+  | BXor a b => SXor (to_sform a) (to_sform b)
+  | BUniq vs => SUnique (map vname_of vs)
+  end.
+
+Fixpoint eqb_clauses (a b : cnf) : bool :=
+  match a, b with
+  | [], [] => true
+  | x :: a', y :: b' => (fix eqc (x y : clause) : bool :=
+                           match x, y with [], [] => true | p :: x', q :: y' => (p =? q) && eqc x' y' | _, _ => false end) x y
+                        && eqb_clauses a' b'
+  | _, _ => false
+  end.
+
+(* does the implementation's export coincide with the one of the mirrored translation (same numbering, same clause and
+   literal order) ?  When it does, C12_wellformed / C12_models apply to it directly. *)
+Definition same_as_model_export (f : bform) (nbv nbc : Z) (nm : list (Z * Z)) (F : cnf) : bool :=
+  let d := dimacs_export (desugar (to_sform f)) in
+  (d_nbvars d =? nbv) && (d_nbclauses d =? nbc) && eqb_clauses (d_clauses d) F &&
+  (Nat.eqb (List.length (d_names d)) (List.length nm)) &&
+  forallb (fun p => existsb (fun q => String.eqb (fst q) (vname_of (fst p)) && (snd q =? snd p)) (d_names d)) nm.
 
 Definition judge_C12 (s : sx) : verdict :=
   match s with
@@ -136,9 +188,15 @@ Definition judge_C12 (s : sx) : verdict :=
         else if negb (forallb (fun p => (1 <=? snd p) && (snd p <=? nbv)) nm) then Fail "comment-index-out-of-range" []
         else if negb (nodupZ (map snd nm)) then Fail "comment-index-not-distinct" []
         else if negb (nodupZ (map fst nm)) then Fail "comment-name-twice" []
+        else if positive_unique (to_sform f) && same_as_model_export f nbv nbc nm F then
+          (* identical to the export of the mirrored translation: the model equivalence is C12_models *)
+          Ok [Z.of_N (count_models nf (fun m => beval m f)); nbv; Z.of_nat (List.length nm); 1]
+        else if 26 <? nbv then
+          (* differs from the mirrored translation and too large for the exhaustive comparison: undecided (drift) *)
+          Ok [Z.of_N (count_models nf (fun m => beval m f)); nbv; Z.of_nat (List.length nm); 2]
         else
           match find_model nf (fun env => negb (Bool.eqb (beval env f) (export_has_model nb F nm env))) with
-          | None => Ok [Z.of_N (count_models nf (fun m => beval m f)); nbv; Z.of_nat (List.length nm)]
+          | None => Ok [Z.of_N (count_models nf (fun m => beval m f)); nbv; Z.of_nat (List.length nm); 0]
           | Some env => Fail "models-differ" (bool_Z (beval env f) :: map bool_Z env)
           end
       end
